@@ -143,6 +143,9 @@ def run(P, R, tier):
     minimalrange_rule(P, R)
     isokey_rule(P, R)
     isoskip_rule(P, R)
+    cl1check_rule(P, R)
+    searchidx_rule(P, R)
+    iunumber_rule(P, R)
     R.undecided += ["mole balance of every element within the declared uncertainties; min..max ranges (solver output)",
                     "which subsets of phases the search visits; isotope balances"]
     R.rule("C18.sign", "one sign convention from the input word to the solver's acceptance test: precipitate <= 0, dissolve >= 0, mixing fractions >= 0", minimum=7)
@@ -620,3 +623,146 @@ def isoskip_rule(P, R):
     visit(target[0][5], 0)
     if n < 3:
         R.anchor_missing(RULE, "phase_isotope_inequalities: only %d skip statements in the isotope loop" % n)
+
+
+def cl1check_rule(P, R):
+    """"every reported model satisfies the mole balances within the declared uncertainties": the last line of defence is the block at the
+    end of cl1 that re-verifies the optimisation, equality and inequality rows of the vertex the simplex returned and turns the exit code
+    into 1 when round-off has produced a vertex that violates them.  Inverse modelling always ENTERS cl1 with kode = 1 (sign
+    constraints given) and accepts the result when the EXIT code is 0: the block must therefore be guarded by `check` and by the
+    current `*l_kode` only; a guard on the saved entry code (kode_arg) switches the verification off for every inverse problem."""
+    RULE = "C18.cl1check"
+    R.rule(RULE, "cl1: the final verification of the returned vertex is guarded by `check` and the exit code only, so that it runs for problems entered with kode = 1", minimum=1)
+    fs = [g for g in P.functions.values() if g.get("body") and g["q"].split("::")[-1] == "cl1" and g["file"].endswith("cl1.cpp")]
+    if len(fs) != 1:
+        R.anchor_missing(RULE, "cl1 found %d times" % len(fs))
+        return
+    f = fs[0]
+    blocks = [x for x in T.walk(f["body"]) if x[0] == "If" and any(w[0] == "Bin" and w[2] == "=" and T.text(T.strip_casts(w[3])) == "check_toler" for w in
+                                                                   (x[3][2] if T.is_node(x[3]) and x[3][0] == "Compound" else [x[3]]) if T.is_node(w))]
+    if len(blocks) != 1:
+        R.anchor_missing(RULE, "cl1: the verification block (sets check_toler) was found %d times" % len(blocks))
+        return
+    blk = blocks[0]
+
+    def conj(c):
+        c = T.strip_casts(c)
+        if T.is_node(c) and c[0] == "Paren":
+            return conj(c[2])
+        if T.is_node(c) and c[0] == "Bin" and c[2] == "&&":
+            return conj(c[3]) + conj(c[4])
+        return [c]
+    cs = conj(blk[2])
+    texts = ["".join(T.text(c, -40).split()) for c in cs]
+    kode_p = [n_ for n_, t in zip(f["pnames"], f["params"]) if "kode" in n_]
+    bad = [t for t in texts if not (t.startswith("check") or any(("*" + k) in t for k in kode_p))]
+    exit_tested = any(any(("*" + k) in t for k in kode_p) for t in texts)
+    sets_exit = any(w[0] == "Bin" and w[2] == "=" and any(("*" + k) == "".join(T.text(T.strip_casts(w[3])).split()) for k in kode_p) for w in T.walk(blk[3]))
+    if not sets_exit:
+        R.anchor_missing(RULE, "cl1: the verification block no longer sets the exit code")
+        return
+    if bad or not exit_tested:
+        R.violation(RULE, "guard", "the verification block of cl1 is guarded by `%s`: %s - inverse modelling enters with kode = 1 and relies on this block to reject "
+                    "round-off vertices (adjustments beyond the uncertainties, wrong signs)" % (T.text(blk[2])[:70], ("the conjunct `%s` does not test the check flag or the "
+                    "current exit code" % bad[0]) if bad else "the current exit code is not tested"), file=f["file"], line=blk[1], function=f["q"])
+    else:
+        R.ok(RULE, "guard", "guarded by %s" % " && ".join(texts))
+
+
+SEARCHIDX_INVARIANT = {
+    # (function, loop variable): why the search cannot fail (confirmed by reading)
+    ("Phreeqc::range", "j"): "col_back is a permutation of the n columns handed to cl1: every column index i occurs",
+    ("Phreeqc::set_isotope_unknowns", "k"): "the primary master species of an element is an element of Phreeqc::master",
+    ("Phreeqc::quick_setup", "i"): "reached only when ss_unknown / the searched unknown type exists in x[] (the pointer tested by the enclosing if is one of them)",
+    ("Phreeqc::get_list_master_ptrs", "j"): "master_ptr0 was obtained from Phreeqc::master",
+}
+
+
+def searchidx_rule(P, R):
+    """A search loop `for (k = 0; k < N; k++) if (match) break;` leaves k == N when nothing matches.  Using k afterwards as an index or in
+    column arithmetic without first comparing it with the bound addresses something else: isotope_balance_equation computed
+    `col_epsilon + k * count_solns + i` for an element that is not a mole-balance constraint, which is the pH column - the isotope
+    balance was absorbed by a pH adjustment and an inadmissible model reported.  Census of the whole engine: every such loop whose index
+    is used before it is tested is listed; the ones that rely on an invariant are frozen in a table with the invariant."""
+    RULE = "C18.searchidx"
+    R.rule(RULE, "after a search loop that breaks on a match, the loop index is tested against the bound before it is used (or the search cannot fail)", minimum=4)
+
+    def single(st):
+        while T.is_node(st) and st[0] == "Compound" and len(st[2]) == 1:
+            st = st[2][0]
+        return st
+    seen = set()
+    for f in sorted(P.functions.values(), key=lambda g: (g["file"], g["line"])):
+        if not f.get("body") or any(x in f["file"] for x in ("cvode", "nvector", "sundials", "dense")):
+            continue
+        for blk in T.walk(f["body"]):
+            if blk[0] != "Compound":
+                continue
+            st = blk[2]
+            for i, lp in enumerate(st):
+                if not (T.is_node(lp) and lp[0] == "For" and T.is_node(lp[3]) and lp[3][0] == "Bin" and lp[3][2] in ("<", "<=")):
+                    continue
+                v = T.strip_casts(lp[3][3])
+                if not (T.is_node(v) and v[0] == "Ref"):
+                    continue
+                var = v[3]
+                body = single(lp[5])
+                if not (T.is_node(body) and body[0] == "If" and not T.is_node(body[4]) and T.is_node(single(body[3])) and single(body[3])[0] == "Break"):
+                    continue
+                for nx in st[i + 1:]:
+                    if not T.is_node(nx):
+                        continue
+                    if not any(y[0] == "Ref" and y[3] == var for y in T.walk(nx)):
+                        if nx[0] in ("Return", "Break", "Continue", "Goto"):
+                            break
+                        continue
+                    if nx[0] == "If" and any(y[0] == "Ref" and y[3] == var for y in T.walk(nx[2])):
+                        break
+                    if nx[0] == "Bin" and nx[2] == "=" and T.is_node(T.strip_casts(nx[3])) and T.strip_casts(nx[3])[0] == "Ref" and T.strip_casts(nx[3])[3] == var:
+                        break
+                    if nx[0] == "For" and T.is_node(nx[2]) and any(T.is_node(T.strip_casts(w[0])) and T.strip_casts(w[0])[0] == "Ref" and T.strip_casts(w[0])[3] == var
+                                                                   for w in T.writes(nx[2])):
+                        break
+                    key = (f["q"], var)
+                    inst = "%s:%s@%d" % (f["q"].split("::")[-1], var, lp[1] - f["line"])
+                    if key in SEARCHIDX_INVARIANT:
+                        seen.add(key)
+                        R.ok(RULE, inst, "cannot fail: " + SEARCHIDX_INVARIANT[key])
+                    else:
+                        R.violation(RULE, inst, "the search loop over %s (line %d) may end without a match, and %s is then used at line %d (`%s`) without having been compared with the "
+                                    "bound: the expression addresses an unrelated row / column" % (var, lp[1], var, nx[1], T.text(nx)[:50]), file=f["file"], line=nx[1], function=f["q"])
+                    break
+    for key in SEARCHIDX_INVARIANT:
+        if key not in seen:
+            R.anchor_missing(RULE, "table row %s:%s matched no loop" % key)
+
+
+def iunumber_rule(P, R):
+    """The uncertainties of the -isotopes list (inverse::i_u) belong to one isotope (element AND number).  A loop that selects the i_u entry
+    for a solution isotope must compare the isotope numbers of the two, not only their master species - with 13C and 14C listed, the
+    last entry of the element won and 13C was given the uncertainty of 14C."""
+    RULE = "C18.iunumber"
+    R.rule(RULE, "every loop that selects an entry of inverse::i_u for an isotope compares the isotope number", minimum=1)
+    n = 0
+    for f in sorted(P.functions.values(), key=lambda g: (g["file"], g["line"])):
+        if not f.get("body"):
+            continue
+        for lp in T.walk(f["body"]):
+            if lp[0] != "For" or not T.is_node(lp[3]):
+                continue
+            if not any(y[0] == "Member" and y[2] == "inverse::i_u" for y in T.walk(lp[3])):
+                continue
+            uses = [y for y in T.walk(lp[5]) if y[0] == "Member" and y[2] == "inverse::i_u"]
+            selects = any(y[0] == "Break" for y in T.walk(lp[5]))
+            if not uses or not selects:
+                continue
+            n += 1
+            inst = "%s@%d" % (f["q"].split("::")[-1], lp[1] - f["line"])
+            cmpn = [x for x in T.walk(lp[5]) if x[0] == "Bin" and x[2] in ("==", "!=") and any(y[0] == "Member" and y[2].endswith("::isotope_number") for y in T.walk(x))]
+            if cmpn:
+                R.ok(RULE, inst, "isotope number compared (line %d)" % cmpn[0][1])
+            else:
+                R.violation(RULE, inst, "the loop selects an entry of the -isotopes uncertainties by element only: with two isotopes of one element listed, the uncertainty of one "
+                            "is applied to the other", file=f["file"], line=lp[1], function=f["q"])
+    if n < 1:
+        R.anchor_missing(RULE, "no selecting loop over inverse::i_u found")
